@@ -173,9 +173,9 @@ var c07Catalogue = []construct{
 // hostPkg is a generated good package cut into declarations.
 type hostPkg struct {
 	Name    string
-	Imports []string // import specs
-	Decls   []string // declaration texts
-	Names   []string // declName of each
+	Imports []string            // import specs
+	Decls   []string            // declaration texts
+	Names   []string            // declName of each
 	Good    map[string][]string // declName -> documented definition names
 }
 
